@@ -433,6 +433,7 @@ def balance_reset(ctx):
     mut.replace_expr(W, 'WalletTransaction.store', 'output_n=ti.output_n_int', 'output_n=ti.index_n', 'stored input outpoint index wrong') if False else
     mut.replace_expr(W, 'WalletTransaction.store', 'ti.output_n_int', 'ti.index_n', 'store writes the input position as outpoint index'),
     mut.replace_expr(W, 'WalletTransaction.from_txid', 'out.script', 'out.address', 'reload builds the lock script from the address column'),
+    mut.replace_stmt(W, 'WalletTransaction.from_txid', 'sigs_required = hdwallet.multisig_n_required', 'sigs_required = None', 'multisig inputs reloaded with the default threshold'),
 ])
 def persist(ctx):
     """Columns read by WalletTransaction.from_txid are written by WalletTransaction.store from the corresponding attribute (inputs:
@@ -498,6 +499,19 @@ def persist(ctx):
     for k, v in (('prev_txid', 'inp.prev_txid'), ('output_n', 'inp.output_n'), ('unlocking_script', 'inp.script'), ('script_type', 'inp.script_type'), ('index_n', 'inp.index_n'),
                  ('value', 'inp.value'), ('witness_type', 'inp.witness_type'), ('witnesses', 'inp.witnesses')):
         ctx.require(kin.get(k) == v, rq, 'input field %s is rebuilt from `%s`, expected %s' % (k, kin.get(k), v), calls['Input'])
+    # multisig inputs are rebuilt with the threshold of the wallet: the stored script of a p2sh-segwit input is only the push of the witness
+    # program, from which Input() cannot read m (it would fall back to 1 and rebuild a 1-of-n redeem script)
+    sr = kin.get('sigs_required')
+    if sr is None:
+        ctx.violate(rq, 'inputs are rebuilt without sigs_required', calls['Input'], 'a stored 2-of-2 p2sh-segwit transaction reloads with a 1-of-2 redeem script: another raw transaction than the stored one')
+    else:
+        from ..dfa import ReachingDefs as _RD
+        rd2 = _RD(rf)
+        lv = rd2.leaves(calls['Input'].keywords[[k.arg for k in calls['Input'].keywords].index('sigs_required')].value, rd2.node_of_ast(calls['Input']))
+        ok = any(x[0] == 'attr' and x[1].endswith('multisig_n_required') for x in lv)
+        ctx.saw('from_txid: Input(sigs_required=%s) <- %s' % (sr, sorted(str(x) for x in lv if x[0] in ('attr', 'const'))))
+        ctx.require(ok, rq, 'the sigs_required of rebuilt inputs does not come from the wallet threshold (multisig_n_required)', calls['Input'],
+                    'a stored 2-of-2 p2sh-segwit transaction reloads with a 1-of-2 redeem script: another raw transaction than the stored one')
     kout = {k.arg: norm(k.value) for k in calls['Output'].keywords}
     for k, v in (('value', 'out.value'), ('lock_script', 'out.script'), ('spent', 'out.spent'), ('output_n', 'out.output_n'), ('script_type', 'out.script_type'), ('change', 'out.is_change')):
         ctx.require(kout.get(k) == v, rq, 'output field %s is rebuilt from `%s`, expected %s' % (k, kout.get(k), v), calls['Output'])
